@@ -28,7 +28,7 @@ def text_with_names(p, S, names):
         return KW[op] + " " + interval_text(p) + " ( " + t(p["l"]) + " )"
     if op in ("and", "or", "implies", "iff", "xor", "since", "until"):
         return "( " + t(p["l"]) + " ) " + KW[op] + " ( " + t(p["r"]) + " )"
-    if op in ("sinceT", "untilT"):
+    if op in ("sinceT", "untilT", "unlessT"):
         return "( " + t(p["l"]) + " ) " + KW[op] + " " + interval_text(p) + " ( " + t(p["r"]) + " )"
     raise ValueError(op)
 
